@@ -72,11 +72,13 @@ def child_env():
 
 
 def run_shard_child(pid, tier, seed, shard, scratch, timeout):
-    inp = os.path.join(scratch, "in-%s.json" % shard["id"])
-    outp = os.path.join(scratch, "out-%s.json" % shard["id"])
+    tag = "%s%s" % (shard["id"], "@O" if shard.get("pyopt") else "")
+    inp = os.path.join(scratch, "in-%s.json" % tag)
+    outp = os.path.join(scratch, "out-%s.json" % tag)
     with open(inp, "w") as f:
         json.dump({"prop": pid, "tier": tier, "seed": seed, "shard": shard}, f)
-    cmd = [sys.executable, "-B", "-m", "vmon.cli", "--shard-run", inp, outp]
+    # pyopt: the same shard in an interpreter started with -O (assert statements and `if __debug__` blocks are not compiled)
+    cmd = [sys.executable, "-B"] + (["-O"] if shard.get("pyopt") else []) + ["-m", "vmon.cli", "--shard-run", inp, outp]
     t0 = time.time()
     try:
         p = subprocess.run(
@@ -108,6 +110,10 @@ def shard_main(inp, outp):
     repo.activate()
     mod = load_prop(spec["prop"])
     ctx = Ctx(spec["prop"], spec["tier"], spec["seed"], spec["shard"])
+    if spec["shard"].get("pyopt"):
+        if __debug__:
+            ctx.inconclusive_because("shard marked pyopt but the interpreter is not running with -O")
+        ctx.count("shards_run_with_python_O")
     try:
         mod.run(spec["shard"], ctx)
     except repo.RepoUnusable as e:
@@ -133,6 +139,7 @@ def write_replay(pid, tier, seed, key, failure):
                 "tier": tier,
                 "seed": seed,
                 "shard": failure.get("shard"),
+                "pyopt": bool(failure.get("pyopt")),
                 "text": failure.get("text"),
                 "count": failure.get("count"),
                 "witness": failure.get("witness"),
@@ -188,6 +195,11 @@ def run_property(pid, tier, seed, only_shard=None):
     shards = mod.shards(tier, seed)
     if only_shard is not None:
         shards = [s for s in shards if str(s["id"]) == str(only_shard)]
+    # interpreter configuration dimension: every shard (or every PYOPT-th, for the expensive properties) runs a second
+    # time in an interpreter started with -O
+    stride = getattr(mod, "PYOPT", 1)
+    if stride:
+        shards = shards + [dict(s, pyopt=True) for s in shards[::stride]]
     scratch = tempfile.mkdtemp(
         prefix="vmon-%s-" % pid,
         dir="/dev/shm" if os.path.isdir("/dev/shm") else None,
@@ -264,14 +276,19 @@ def replay(pid, path):
     from vmon import repo
     from vmon.ctx import Ctx
 
-    repo.activate()
     rec = json.load(open(path))
+    if rec.get("pyopt") and __debug__:
+        # observed in an interpreter started with -O: replay it the same way
+        return subprocess.call([sys.executable, "-B", "-O", "-m", "vmon.cli", pid, "--replay", path], cwd=ROOT, env=child_env())
+    repo.activate()
     mod = load_prop(pid)
     shard = {"id": rec.get("shard") or "replay", "replay": True}
     for s in mod.shards(rec.get("tier", "quick"), rec.get("seed", 0)):
         if str(s["id"]) == str(rec.get("shard")):
             shard = s
             break
+    if rec.get("pyopt"):
+        shard = dict(shard, pyopt=True)
     ctx = Ctx(pid, rec.get("tier", "quick"), rec.get("seed", 0), shard)
     if not hasattr(mod, "replay"):
         print("replay not supported for %s" % pid, file=sys.stderr)
